@@ -641,7 +641,7 @@ func c09RecorderCCFB(r *Rng, rec *rfc8888.Recorder, sent []c09Sent, now time.Tim
 	return []string{c09CCFBOp(fb, now, adapter)}
 }
 
-var c09AdapterClasses = []string{"twcc-hand", "twcc-recorder", "twcc-inflight", "ccfb-hand", "ccfb-recorder", "mixed"}
+var c09AdapterClasses = []string{"twcc-hand", "twcc-recorder", "twcc-inflight", "ccfb-hand", "ccfb-recorder", "mixed", "resend"}
 
 func c09GenAdapter(r *Rng, tier string, idx int) Case {
 	cl := c09AdapterClasses[idx%len(c09AdapterClasses)]
@@ -728,6 +728,77 @@ func c09GenAdapter(r *Rng, tier string, idx int) Case {
 			ops = append(ops, "ccfb "+c09HandCCFB(r, ssrcs, begin, c09At(ms+20), true))
 		}
 		ops = append(ops, "len")
+	case "resend":
+		// A key (TWCC number, or SSRC + RTP number) that is sent AGAIN while its first record may
+		// still be in the 250-entry history: the re-send must count as the newest entry. d1 distinct
+		// packets lie between the two sends, d2 after the re-send; both ages sit around 250.
+		twcc := r.Bool()
+		ssrc := uint32(r.Range(1, 9))
+		start := r.Pick(0, 65535, 65400, 65500, 65290, r.Intn(65536)) // the run crosses 65535 -> 0 for most
+		next := start
+		sendOp := func(n int) string {
+			ms += int64(r.Range(0, 9))
+			if twcc {
+				return fmt.Sprintf("sent tw=%d size=%d t=%s", n&0xFFFF, r.Range(1, 1400), c09ZS(c09At(ms)))
+			}
+			return fmt.Sprintf("sent ssrc=%d seq=%d size=%d t=%s", ssrc, n&0xFFFF, r.Range(1, 1400), c09ZS(c09At(ms)))
+		}
+		fresh := func(k int) {
+			for ; k > 0; k-- {
+				ops = append(ops, sendOp(next))
+				next++
+			}
+		}
+		feedback := func(keys []int) {
+			lo, hi := keys[0], keys[0]
+			for _, k := range keys {
+				lo, hi = min(lo, k), max(hi, k)
+			}
+			lo -= r.Range(0, 2)
+			n := hi - lo + 1 + r.Range(0, 2)
+			if twcc {
+				ds := make([]int, n)
+				for i := range ds {
+					ds[i] = r.Range(0, 255) * 250
+				}
+				ops = append(ops, fmt.Sprintf("twcc base=%d cnt=%d ref=%d chunks=R1x%d deltas=%s", lo&0xFFFF, n, r.Intn(1<<24), n, joinInts(ds)))
+				return
+			}
+			fb := &rtcp.CCFeedbackReport{ReportTimestamp: verifhooks.ToNTP32(c09At(ms + 40))}
+			rb := rtcp.CCFeedbackReportBlock{MediaSSRC: ssrc, BeginSequence: uint16(lo)}
+			for i := 0; i < n; i++ {
+				rb.MetricBlocks = append(rb.MetricBlocks, rtcp.CCFeedbackMetricBlock{Received: true, ECN: rtcp.ECN(r.Intn(4)), ArrivalTimeOffset: uint16(r.Intn(0x1FFE))})
+			}
+			fb.ReportBlocks = append(fb.ReportBlocks, rb)
+			ops = append(ops, "ccfb "+c09CCFBOp(fb, c09At(ms+40), true))
+		}
+		fresh(r.Pick(0, 1, 5, 100, 249, 250, 251, 300))
+		var keys []int
+		for k := r.Range(1, 3); k > 0; k-- { // the keys that will be re-sent
+			keys = append(keys, next)
+			ops = append(ops, sendOp(next))
+			next++
+			if r.Bool() {
+				fresh(r.Range(0, 3))
+			}
+		}
+		fresh(r.Pick(0, 0, 1, 2, 10, 100, 200, 248, 249, 250, 251)) // d1
+		if r.Chance(1, 6) {
+			feedback(keys) // feedback between the two sends
+		}
+		for _, k := range keys {
+			if r.Chance(5, 6) {
+				ops = append(ops, sendOp(k)) // the re-send
+			}
+		}
+		for rounds := r.Range(1, 3); rounds > 0; rounds-- {
+			fresh(r.Pick(0, 1, 100, 240, 247, 248, 249, 250, 251, 252)) // d2
+			feedback(keys)
+			ops = append(ops, "len")
+			if r.Chance(1, 3) {
+				ops = append(ops, sendOp(keys[r.Intn(len(keys))])) // re-sent once more
+			}
+		}
 	case "ccfb-recorder":
 		rec := rfc8888.NewRecorder()
 		ssrcs := []uint32{uint32(r.Range(1, 5)), uint32(r.Range(6, 9))}
